@@ -82,6 +82,14 @@ def wfHostSA (netloc : Str) : Bool :=
   | '[' :: _ => true
   | h => noneOf ['%'] h
 
+/-- **the exact host condition of the suffix-aware round trip with suffix_trie.py inside**
+(`Props.C12.roundtrip_string_psl`): a bracketed literal (never suffix-processed), or a host that
+neither starts nor ends with a dot.  Outside it suffix_trie.py's split does not re-join to the
+host (it strips trailing dots; `.co.uk` is split into `("", "co.uk")`) and the suffix-aware stems
+lose the empty label: known finding KF-C12-2 -/
+def pslHostOK (h : Str) : Bool :=
+  h.head? == some '[' || (h.head? != some '.' && h.getLast? != some '.')
+
 /-- no `|` anywhere (the hypothesis of C12) -/
 def noBar (p : Parts) : Bool :=
   noneOf ['|'] p.scheme && noneOf ['|'] p.netloc && noneOf ['|'] p.path &&
